@@ -173,8 +173,7 @@ def sink_bodies(an, rep):
             at = [a for a in p.atoms() if a[1][0] == "discr"]
             variant = None
             for a in at:
-                names = dict(a[1][2])
-                variant = names.get(a[2]) if isinstance(a[2], int) else variant
+                variant = walk.atom_variant(a) or variant
             src = strip_refs(a[1][1]) if at else None
             if variant == "Some":
                 okk = okk and tgt[0] == "field" and tgt[1][0] == "variant" and "last_mut" in show(tgt)
